@@ -221,6 +221,9 @@ func VerifC10Case() {
 		want = "Z"
 	}
 	nd.Assert(out == want, "case-first-equal")
+	// a case without any when clause: the else clause applies, or nothing renders
+	o2, e2 := vRender("{% case s %}{% else %}Z{% endcase %}|{% case s %}{% endcase %}|{% case s %}{% when w1 %}{% endcase %}", Bindings{"s": sv, "w1": w1})
+	nd.Assert(e2 == nil && o2 == "Z||", "case-with-only-an-else-clause")
 	nd.Reach("C10.case")
 }
 
@@ -255,6 +258,9 @@ func VerifC10Nested() {
 		w = "B" + bx + "C|DuE|"
 	}
 	nd.Assert(out == w+by+"Z", "content-after-nested-block-stays-in-its-clause")
+	// what the selected branch wrote before a break or continue stays written
+	o9, e9 := vRender("{% for i in (1..3) %}{% if i == 2 %}<two>{% break %}{% endif %}{{ i }}{% endfor %}|{% for i in (1..3) %}{% unless i == 2 %}{{ i }}{% else %}<{{ i }}>{% continue %}{% endunless %};{% endfor %}|{% for i in (1..2) %}{% case i %}{% when 1 %}one{% continue %}{% else %}other{% break %}{% endcase %}x{% endfor %}", Bindings{})
+	nd.Assert(e9 == nil && o9 == "1<two>|1;<2>3;|oneother", "branch-output-before-break-or-continue-kept")
 	nd.Reach("C10.nested")
 }
 
